@@ -2807,7 +2807,12 @@ func (uconn *UConn) ApplyPreset(p *ClientHelloSpec) error {
 			strconv.Itoa(len(hello.Random)) + " bytes")
 	}
 
-	if len(hello.CompressionMethods) == 0 {
+	// The compression methods are part of the spec (FromRaw and the JSON importer fill them in);
+	// only a spec that leaves them empty gets the default.
+	if len(p.CompressionMethods) > 0 {
+		hello.CompressionMethods = make([]uint8, len(p.CompressionMethods))
+		copy(hello.CompressionMethods, p.CompressionMethods)
+	} else if len(hello.CompressionMethods) == 0 {
 		hello.CompressionMethods = []uint8{compressionNone}
 	}
 
